@@ -276,6 +276,35 @@ pub fn record_short(out: &mut Out, tier: &str) {
     }
 }
 
+/// C03, memory-safety clause: a small sample of the same inputs, meant to be EXECUTED UNDER MIRI (the
+/// interpreter turns undefined behaviour into an aborted run: no End sentinel, non-zero exit)
+pub fn record_miri(out: &mut Out, seed: u64, part: &str) {
+    let mut rng = Rng::new(seed ^ 0x3121);
+    let mut b = Budget { big: 2, huge: 0 };
+    if part == "dec3" {
+        for i in 0..40 {
+            let v = input_for::<V3>(&mut rng, &mut b, i);
+            dec3_event::<V3>(out, &v);
+            let v = input_for::<V5>(&mut rng, &mut b, i);
+            dec3_event::<V5>(out, &v);
+        }
+        return;
+    }
+    let mut run = 0u64;
+    for i in 0..15 {
+        run += 1;
+        let v = wide_frame::<V3>(&mut rng, &mut b, i);
+        if v.len() < 400 {
+            poll_schedule_run::<V3>(out, &mut rng, run, &v);
+        }
+        run += 1;
+        let v = wide_frame::<V5>(&mut rng, &mut b, i);
+        if v.len() < 400 {
+            poll_schedule_run::<V5>(out, &mut rng, run, &v);
+        }
+    }
+}
+
 pub fn record_dec3(out: &mut Out, tier: &str, seed: u64) {
     let n = if tier == "thorough" { 150000 } else { 5000 };
     let mut rng = Rng::new(seed ^ 0xC06);
